@@ -157,9 +157,10 @@ Hostile(role, rem) ==
       [] OTHER             -> {}
 
 CutOffsets(lay) ==
-    LET tot == Total(lay) IN
-    IF tot <= 40 THEN 0..(tot - 1)
-    ELSE {o \in 0..(tot - 1) : \E i \in 1..(Len(lay) + 1) : o \in {Off(lay, i) - 1, Off(lay, i), Off(lay, i) + 1}}
+    LET tot  == Total(lay)
+        offs == {Off(lay, i) : i \in 1..(Len(lay) + 1)}
+        near == UNION {{o - 1, o, o + 1} : o \in offs}
+    IN IF tot <= 40 THEN 0..(tot - 1) ELSE near \cap (0..(tot - 1))
 
 NoMut == [op |-> "none", at |-> 0, oldn |-> 0, val |-> "", exp |-> "ok", role |-> ""]
 Muts(lay) ==
